@@ -510,6 +510,95 @@ def runLoopC (m : CMol) (q : CQuery) (scope : List Bool) (qdec : Nat) :
       let cands ← expandC m q scope depth n path matched
       runLoopC m q scope qdec fuel (cands.reverse.map (·, depth + 1) ++ stack) path matched acc
 
+/-! ### the same matcher with the scratch array `closures[]` as explicit state (statement by statement)
+
+`closures` is allocated once, zero-filled by `memset`, written by the fill loop of a candidate, read by the comparison loop and
+zeroed again by the last loop of the block. `Props/C09.lean: scratch_array_is_clean` proves that every candidate finds it all-zero,
+which is what makes the local-function reading (`scratch`, `closureC`) above exact. -/
+
+/-- `closures[j_bond.index] = j_bond.bond` for the recorded neighbours, in loop order (a later write wins) -/
+def fillScratch (arr : List Nat) (hits : List CBond) : List Nat := hits.foldl (fun a jb => a.set jb.index jb.bond) arr
+
+/-- `for j in range(m_atom.from_, m_atom.to_): closures[molecule.bonds[j].index] = 0` -/
+def zeroScratch (arr : List Nat) (nb : List CBond) : List Nat := nb.foldl (fun a jb => a.set jb.index 0) arr
+
+/-- the closure block with the array threaded through: verdict and the array it leaves behind -/
+def closureCS (m : CMol) (q : CQuery) (qa : CQAtom) (mAtom : CAtom) (n : Nat) (matched : List Bool) (path : List Nat)
+    (arr : List Nat) : Option (Bool × List Nat) :=
+  match slice? m.bonds mAtom.from_ mAtom.to_ with
+  | none => none
+  | some nb =>
+    match nb.mapM (fun jb => matched[jb.index]?) with
+    | none => none
+    | some flags =>
+      let hits := ((nb.zip flags).filter fun (jb, f) => jb.index != n && f).map (·.1)
+      if qa.closure != 0 then
+        let arr1 := fillScratch arr hits
+        if hits.length == qa.closure then
+          match slice? q.bonds qa.from_ qa.to_ with
+          | none => none
+          | some qb =>
+            match qb.mapM (fun jb => path[jb.index]?) with
+            | none => none
+            | some images =>
+              match images.mapM (fun x => arr1[x]?) with
+              | none => none
+              | some cs => some ((qb.zip cs).all (fun (jb, c) => !(c == 0 || (jb.bond &&& c != c))), zeroScratch arr1 nb)
+        else some (false, zeroScratch arr1 nb)
+      else some (hits.isEmpty, arr)
+
+/-- the bond-row scan in loop order, the array handed from candidate to candidate -/
+def candidatesCS (m : CMol) (q : CQuery) (scope : List Bool) (qa : CQAtom) (n : Nat) (matched : List Bool) (path : List Nat) :
+    List CBond → List Nat → Option (List Nat × List Nat)
+  | [], arr => some ([], arr)
+  | ib :: rest, arr =>
+    match m.atoms[ib.index]?, scope[ib.index]?, matched[ib.index]? with
+    | some mAtom, some sc, some mt =>
+      if sc && !mt && nextOk qa ib.bond mAtom then
+        match closureCS m q qa mAtom n matched path arr with
+        | none => none
+        | some (ok, arr') =>
+          match candidatesCS m q scope qa n matched path rest arr' with
+          | none => none
+          | some (tl, arr'') => some (if ok then ib.index :: tl else tl, arr'')
+      else candidatesCS m q scope qa n matched path rest arr
+    | _, _, _ => none
+
+def expandCS (m : CMol) (q : CQuery) (scope : List Bool) (depth n : Nat) (path : List Nat) (matched : List Bool) (arr : List Nat) :
+    Option (List Nat × List Nat) :=
+  match q.atoms[depth + 1]? with
+  | none => none
+  | some qa =>
+    match (if qa.back != depth then path[qa.back]? else some n) with
+    | none => none
+    | some n' =>
+      match m.atoms[n']? with
+      | none => none
+      | some nAtom =>
+        match slice? m.bonds nAtom.from_ nAtom.to_ with
+        | none => none
+        | some row => candidatesCS m q scope qa n' matched path row arr
+
+def runLoopCS (m : CMol) (q : CQuery) (scope : List Bool) (qdec : Nat) :
+    Nat → List (Nat × Nat) → List Nat → List Bool → List Nat → List Iso.Dict → Option (List Iso.Dict)
+  | 0, _, _, _, _, _ => none
+  | _+1, [], _, _, _, acc => some acc.reverse
+  | fuel+1, (n, depth) :: stack, path, matched, arr, acc =>
+    if depth == qdec then
+      match buildMapping m q path depth n with
+      | none => none
+      | some mp => runLoopCS m q scope qdec fuel stack path matched arr (mp :: acc)
+    else
+      let matched := if path.length != depth then unmark (path.drop depth) matched else matched
+      let path := path.take depth
+      if n ≥ matched.length then none
+      else
+        let matched := matched.set n true
+        let path := path ++ [n]
+        match expandCS m q scope depth n path matched arr with
+        | none => none
+        | some (cands, arr') => runLoopCS m q scope qdec fuel (cands.reverse.map (·, depth + 1) ++ stack) path matched arr' acc
+
 /-- same potential bound as C07's machine -/
 def fuelC (m : CMol) (q : CQuery) : Nat := m.atoms.length * (m.atoms.length + 1) ^ (q.atoms.length + 1) + 1
 
@@ -523,6 +612,14 @@ def rootsC (m : CMol) (q : CQuery) (scope : List Bool) : Option (List Nat) := do
 def getMappingC (m : CMol) (q : CQuery) (scope : List Bool) : Option (List Iso.Dict) := do
   let roots ← rootsC m q scope
   runLoopC m q scope (q.atoms.length - 1) (fuelC m q) (roots.reverse.map (·, 0)) [] (List.replicate m.atoms.length false) []
+
+/-- `get_mapping(q_buffer, m_buffer, scope)` with the scratch array as state (`memset(closures, 0, …)` at the start) -/
+def getMappingCS (m : CMol) (q : CQuery) (scope : List Bool) : Option (List Iso.Dict) :=
+  match rootsC m q scope with
+  | none => none
+  | some roots =>
+    runLoopCS m q scope (q.atoms.length - 1) (fuelC m q) (roots.reverse.map (·, 0)) [] (List.replicate m.atoms.length false)
+      (List.replicate m.atoms.length 0) []
 
 /-! ## the two paths of `QueryIsomorphism.get_mapping` (stereo post-filter excluded: it is shared code applied to either stream) -/
 
@@ -593,7 +690,8 @@ def neededC (tComps : List (List Nat)) (scope : Option (List Nat)) (k : Nat) : B
   else (Iso.permutations tComps k).any fun cands => match cands with | c :: _ => survives scope c | [] => false
 
 /-- `query.get_mapping(mol, automorphism_filter, searching_scope)` with the translated extension installed -/
-def cythonPath (q : LQuery) (m : LMol) (tComps : List (List Nat)) (scope : Option (List Nat)) (autoF : Bool) : Outcome :=
+def cythonPathWith (gm : CMol → CQuery → List Bool → Option (List Iso.Dict))
+    (q : LQuery) (m : LMol) (tComps : List (List Nat)) (scope : Option (List Nat)) (autoF : Bool) : Outcome :=
   match Iso.compileQuery q.graph with
   | none => .crash
   | some (comps, cl) =>
@@ -609,9 +707,18 @@ def cythonPath (q : LQuery) (m : LMol) (tComps : List (List Nat)) (scope : Optio
         match encStructure m with
         | .error e => .err e
         | .ok cm =>
-          match isoWith (fun cq cand => getMappingC cm cq (scopeArray m cand)) tComps scope cqs with
+          match isoWith (fun cq cand => gm cm cq (scopeArray m cand)) tComps scope cqs with
           | none => .crash
           | some r => .ok (if autoF then Iso.autoFilter r else r)
+
+/-- the accelerated path with the `.pyx` matcher whose scratch array is read as a local function (what the theorems talk about) -/
+def cythonPath (q : LQuery) (m : LMol) (tComps : List (List Nat)) (scope : Option (List Nat)) (autoF : Bool) : Outcome :=
+  cythonPathWith getMappingC q m tComps scope autoF
+
+/-- the accelerated path with the `.pyx` matcher transcribed statement by statement, scratch array as explicit state (what the
+    driver runs; `Props/C09.lean: scratch_array_is_clean` proves the two equal) -/
+def cythonPathS (q : LQuery) (m : LMol) (tComps : List (List Nat)) (scope : Option (List Nat)) (autoF : Bool) : Outcome :=
+  cythonPathWith getMappingCS q m tComps scope autoF
 
 /-- `query.get_mapping(mol, …, _cython=False)` -/
 def pythonPath (q : LQuery) (m : LMol) (tComps : List (List Nat)) (scope : Option (List Nat)) (autoF : Bool) : Outcome :=
